@@ -12,7 +12,7 @@ META = {
     "trusted_base": ["z3 / cvc5", "vtlib/symnum.py facade (einsum patterns spelled out; eigvalsh replaced by three sorted unknowns with the trace invariant)",
                      "float constants such as 1/N are exact binary values: identities are stated with 1e-8 tolerances and coordinates in [-100,100] nm"],
     "assumptions": ["2 frames x 3 atoms for the coordinate descriptors; one 6-residue topology for contacts; mass vectors from a catalogue of 4"],
-    "out": ["eigen-decompositions themselves (LAPACK)", "DRID (drid.pyx / dridkernels.cpp / moments.cpp) and nematic order (eigen-solver heavy) not encoded in this round",
+    "out": ["eigen-decompositions themselves (LAPACK)", "the Cython glue drid.pyx (partner lists per atom) and nematic order (eigen-solver heavy) not encoded; the DRID moment kernel itself is (C16.drid.*)",
             "np.histogram binning (numpy library)", "static_dielectric / kappa_T unit algebra", "compute_rdf_t beyond its pair chunking"],
 }
 
@@ -45,6 +45,9 @@ def obligations():
     for scheme in ("ca", "closest"):
         o.append(Obl(f"C16.contacts.{scheme}.all_residues", "py", H, "contacts", ["mdtraj.geometry.contact.compute_contacts"], "same topology (one water, one residue without N), contacts='all', ignore_nonprotein=False",
                      "one label per distance column; scheme 'ca' reports exactly the pairs whose residues both have a CA, the other schemes every pair at least three residues apart", 600, params={"scheme": scheme, "mode": "all", "ignore_nonprotein": False}))
+    for n in (4, 5):
+        o.append(Obl(f"C16.drid.n{n}", "py", "harness.c16_drid", "drid_moments", ["dridkernels.cpp:drid_moments", "moments.cpp:moments_clear / push / mean / second / third"], f"{n} partners of one atom; the inverse distances symbolic reals",
+                     "mean, sqrt of the second and REAL cube root of the third central moment of the inverse distances to the listed partners (one-pass update formulas as polynomial identities)", 300, params={"n": n}))
     o.append(Obl("C16.rdf_t.chunks", "xh", "harness.c16_py", "rdf_t_chunks", ["mdtraj.geometry.rdf.compute_rdf_t"], "3..4 atoms (3..6 pairs + self pairs), n_concurrent_pairs 1..11, self_correlation on/off",
                  "every pair is handed to the distance routine exactly once and the result does not depend on the chunk size", 300))
     return o
@@ -54,5 +57,5 @@ MANIFEST_INFO = {
     "engine": "symnum",
     "technique": "real numpy descriptor code executed on z3 reals through a numpy facade; closed forms typed independently; z3/cvc5 decide equality",
     "text": "Rg, centres, gyration tensor and shape descriptors, Karplus relations, density, dipole moments, RDF normalisation, squareform and the residue-contact bookkeeping (all five schemes, 'all' and explicit pairs, hard and soft minimum) are proved equal to their formulas for all coordinate / distance values on small systems.",
-    "note": "DRID, nematic order, eigen-decompositions and histogram binning are not encoded. Real-arithmetic floats; small fixed topologies.",
+    "note": "Nematic order, eigen-decompositions, histogram binning and the Cython glue of compute_drid are not encoded (the DRID moment kernel is, through the clang-AST engine). Real-arithmetic floats; small fixed topologies.",
 }
